@@ -18,7 +18,7 @@ package prom
 //@   property C20
 //@   requires [metrics-constructed] wfMetrics(pm)
 //@   requires [non-nil] res != nil
-//@   modifies nothing
+//@   modifies ghost(cval, all), ghost(hcount, all), ghost(hsum, all)
 //@   ensures [bytes-in] forall c ref :: c == child3(pm.requestBytesInCounter, res.Method, res.URL, fmtint(res.Code, 10)) ==> cval(c) == old(cval(c)) + real(res.BytesIn)
 //@   ensures [bytes-out] forall c ref :: c == child3(pm.requestBytesOutCounter, res.Method, res.URL, fmtint(res.Code, 10)) ==> cval(c) == old(cval(c)) + real(res.BytesOut)
 //@   ensures [latency-count-and-sum] forall c ref :: c == child3(pm.requestLatencyHistogram, res.Method, res.URL, fmtint(res.Code, 10)) ==>
